@@ -97,7 +97,8 @@ impl Monitor for C15 {
         let (src, input, kind) = self.gen(idx);
         let mut base = self.boot.clone();
         base.set_binary_input(Xbitstr::from(input)).expect("input");
-        let _ = base.set_insn_limit(Some(40_000));
+        let limit = [40_000usize, 3_000, 257, 52][(idx % 4) as usize];
+        let _ = base.set_insn_limit(Some(limit));
         let _ = base.set_stack_limit(Some(100_000));
         let mut first: Option<(String, String)> = None;
         let mut results = Vec::new();
@@ -151,6 +152,9 @@ impl Monitor for C15 {
             obs.violation(Violation { class: "panic".into(), sig: format!("C15:panic:{}", normalise_msg(res0)), index: idx, case: src.clone(), detail: res0.clone() });
         }
         obs.count(if res0 == "ok" { "programs_ok" } else { "programs_failing" });
+        if res0.contains("insn limit") {
+            obs.count("programs_stopped_by_insn_limit_compared");
+        }
         if res0 != "ok" {
             let k: String = res0.split(|c| c == '(' || c == '{' || c == '"').next().unwrap_or("").trim().to_string();
             obs.see("error_kinds_compared", &k);
@@ -173,7 +177,9 @@ impl Monitor for C15 {
 }
 
 fn hit_limit(results: &[(bool, usize, String, String)]) -> bool {
-    results.iter().any(|r| r.2.contains("insn limit") || r.2.contains("step guard"))
+    // the instruction budget is part of the configuration and is metered identically in every drive mode, so programs
+    // that run into it are compared as well; only the harness's own step guard makes a case inconclusive
+    results.iter().any(|r| r.2.contains("step guard"))
 }
 
 pub fn truncate(s: &str, n: usize) -> String {
